@@ -169,6 +169,27 @@ func orderedSlice(p *core.Prog, f *core.Func, obj types.Object, at *core.GNode, 
 			}
 		}
 	}
+	// a dominating call of a helper that leaves the slice it is handed sorted: `sortDescending(xs)`
+	for _, n := range stmtNodes(g) {
+		for _, c := range nodeCalls(n) {
+			fo := core.Callee(info, c)
+			if fo == nil {
+				continue
+			}
+			h := p.ByObj[fo.Origin()]
+			if h == nil || h.Body == nil || h == f {
+				continue
+			}
+			for ai, a := range c.Args {
+				if core.ObjOf(info, a) != obj || !helperLeavesParamSorted(p, h, ai, want) {
+					continue
+				}
+				if at == nil || (g.Dominates(n, at) && !reassignedBetween(g, info, n, at, obj)) {
+					return true, "sorted by " + h.Key
+				}
+			}
+		}
+	}
 	// definitions of obj
 	var defs []ast.Expr
 	appendsOnly := true
@@ -266,4 +287,43 @@ func returnsOrdered(p *core.Prog, callee *core.Func, want token.Token, depth int
 		}
 	}
 	return true, callee.Key + " returns an ordered slice"
+}
+
+// helperLeavesParamSorted: every run of h that returns has sorted its i-th parameter (a slice, so the caller's elements)
+// with a recognised strict comparator of direction `want`, and h does not touch the parameter after the sort.
+func helperLeavesParamSorted(p *core.Prog, h *core.Func, i int, want token.Token) bool {
+	po := h.ParamObj(i)
+	if po == nil {
+		return false
+	}
+	if _, isSlice := po.Type().Underlying().(*types.Slice); !isSlice {
+		return false
+	}
+	info := h.Pkg.TypesInfo
+	g := p.Graph(h)
+	var sortNode *core.GNode
+	for _, n := range stmtNodes(g) {
+		for _, si := range sortCalls(info, n.Ast) {
+			if si.SliceObj == types.Object(po) && si.Decided && si.Strict && si.Op == want {
+				sortNode = n
+			}
+		}
+	}
+	if sortNode == nil {
+		return false
+	}
+	for _, rn := range g.Returns() {
+		if !g.Dominates(sortNode, rn) {
+			return false
+		}
+	}
+	if len(g.Returns()) == 0 && !g.Dominates(sortNode, g.Exit) {
+		return false
+	}
+	for n := range g.Reach(sortNode, nil) {
+		if n != sortNode && n.Kind == core.KStmt && n.Ast != nil && core.MentionsOutsideLits(info, n.Ast, po) {
+			return false
+		}
+	}
+	return true
 }
